@@ -928,5 +928,6 @@ def run(ctx):
     ctx.do(c04.r4_7)
     ctx.do(c19.r19_4)  # framing state is reset per command
     ctx.do(c19.r19_9)  # a refused literal does not leave its command (or its octets) in front of the next one
+    ctx.do(c19.r19_10)  # a long command line is a command or gets a BAD - never a dropped connection
     for k, v in INFEASIBLE_RAISE.items():
         ctx.trust(f"frozen infeasible raise: {k[0]} {k[1]} - {v}")
